@@ -77,7 +77,7 @@ OPS = [
 
 def sh(cmd, cwd, timeout=900):
     try:
-        p = subprocess.run(cmd, cwd=cwd, env=ENV, shell=True, stdout=subprocess.PIPE, stderr=subprocess.STDOUT, timeout=timeout, text=True)
+        p = subprocess.run(cmd, cwd=cwd, env=ENV, shell=True, stdout=subprocess.PIPE, stderr=subprocess.STDOUT, timeout=timeout, text=True, errors="replace")
         return p.returncode, p.stdout
     except subprocess.TimeoutExpired:
         return 124, "timeout"
